@@ -825,6 +825,8 @@ class Analyzer:
                 verdict = (True, cname, detail)
                 break
             best_detail = best_detail or [(cname, detail)]
+        if verdict is None and _shrinks_container(x):
+            verdict = (True, None, ["every iteration removes an element of the local list the loop runs on, nothing adds to it"])
         if verdict is None:
             if not backs:
                 verdict = (True, None, ["no back edge: body always leaves the loop"])
@@ -933,6 +935,36 @@ class Analyzer:
                     sm["E"] = False
         sm["cond"] = _entry_condition(self.fn) if sm["kmin"] == 0 or (sm["kind"] == "pair" and sm["knonnull"] == 0) else None
         return sm
+
+
+def _shrinks_container(loop):
+    """`while xs:` (or `while len(xs) > 0`) over a local name where every path through the body calls xs.pop()/popleft() at its top
+    level and nothing in the body can add to xs (no append/extend/insert/+=, xs not handed to a call, not re-bound)"""
+    t = loop.test
+    name = None
+    if isinstance(t, ast.Name):
+        name = t.id
+    elif isinstance(t, ast.Compare) and len(t.ops) == 1 and isinstance(t.ops[0], (ast.Gt, ast.NotEq)) and isinstance(t.left, ast.Call) and callee_name(t.left) == "len" and \
+            len(t.left.args) == 1 and isinstance(t.left.args[0], ast.Name) and isinstance(t.comparators[0], ast.Constant) and t.comparators[0].value == 0:
+        name = t.left.args[0].id
+    if name is None or loop.orelse:
+        return False
+    pops = 0
+    for st in loop.body:
+        top_pop = any(isinstance(c, ast.Call) and isinstance(c.func, ast.Attribute) and c.func.attr in ("pop", "popleft") and isinstance(c.func.value, ast.Name) and c.func.value.id == name
+                      for c in ast.walk(st)) and not isinstance(st, (ast.If, ast.For, ast.While, ast.Try, ast.With))
+        pops += bool(top_pop)
+        for n in ast.walk(st):
+            if isinstance(n, ast.Name) and n.id == name:
+                if isinstance(n.ctx, (ast.Store, ast.Del)):
+                    return False
+                p_ = getattr(n, "_parent", None)
+                ok_use = isinstance(p_, ast.Attribute) and p_.attr in ("pop", "popleft") or (isinstance(p_, ast.Call) and callee_name(p_) == "len") or isinstance(p_, (ast.Subscript,))
+                if not ok_use:
+                    return False
+            if isinstance(n, (ast.Continue,)):
+                return False
+    return pops >= 1
 
 
 def _nonneg(e):
